@@ -199,6 +199,12 @@ pub fn phase(sim: &mut Sim, rng: &mut Rng, rep: &mut Report) -> Result<(), Strin
 		sim.w.disconnect(a, b);
 	}
 	events_all(sim, rep);
+	let mut copies = if sim.w.chain_equiv {
+		sim.w.event_log.clear();
+		crate::chainequiv::make_copies(sim, rng, rep)
+	} else {
+		vec![]
+	};
 	// --- 3. mine until everything has matured ---
 	let start = sim.w.chain.height();
 	let mut quiet_blocks = 0;
@@ -210,6 +216,9 @@ pub fn phase(sim: &mut Sim, rng: &mut Rng, rep: &mut Report) -> Result<(), Strin
 			sim.w.nodes[k].mon.rebroadcast_pending_claims();
 		}
 		events_all(sim, rep);
+		if !copies.is_empty() {
+			crate::chainequiv::on_block(sim, &mut copies, rng, rep);
+		}
 		// the cheater follows up with some of its second-stage HTLC transactions once its commitment is buried
 		if rec.revoked && !attacker_stage2_done {
 			// the cheater keeps trying to get (a random subset of) its second-stage transactions in first
@@ -239,7 +248,7 @@ pub fn phase(sim: &mut Sim, rng: &mut Rng, rep: &mut Report) -> Result<(), Strin
 			sim.w.attacker_htlc_txs = keep;
 		}
 		// the monitoring node may be restarted (monitor serialized and read back) at any block
-		if rng.chance(1, 90) {
+		if !sim.w.chain_equiv && rng.chance(1, 90) {
 			let k = rng.below(n as u64) as usize;
 			sim.w.note(format!("ONCHAIN restart node{} (everything persisted)", k));
 			for i in 0..n {
